@@ -112,7 +112,7 @@ func c04More(c *Ctx) {
 		for _, in := range findInstrs(fn, CallTo(`^`+csT+`\.tryFinalizeCommit$`, "")) {
 			var extra []string
 			for _, d := range domConds(in) {
-				if re(`^call:\(\*types\.PartSet\)\.IsComplete\(.*=T$|^\(cs\.RoundState\.Step == const:8\)=T$|^phi\(.*IsComplete.*=T$|#0=T$|#1 (!=|==) nil\)=[TF]$|^\(cs\.RoundState\.ProposalBlockParts == nil\)=F$|^\(cs\.RoundState\.Height != .*\)=F$|^\(call:.*(Unmarshal|BlockFromProto|ReadAll|NewReader).*(!=|==) nil\)=[TF]$`).MatchString(d) {
+				if factMatches(d, `^call:\(\*types\.PartSet\)\.IsComplete\(.*=T$|^\(cs\.RoundState\.Step == const:8\)=T$|^phi\(.*IsComplete.*=T$|#0=T$|#1 (!=|==) nil\)=[TF]$|^\(cs\.RoundState\.ProposalBlockParts == nil\)=F$|^\(cs\.RoundState\.Height != .*\)=F$|^\(call:.*(Unmarshal|BlockFromProto|ReadAll|NewReader).*(!=|==) nil\)=[TF]$`) {
 					continue
 				}
 				extra = append(extra, d)
